@@ -39,28 +39,15 @@ theorem unsubscribeCore_noop (s : St) (r : Nat) (t : Topic) (x : Rx) (hx : s.rxs
     (ht : t ∉ x.subs) : unsubscribeCore s r t = s := by
   unfold unsubscribeCore; simp [hx, ht]
 
-theorem foldl_unsubscribeCore_noop (l : List Topic) (s : St) (r : Nat) (x : Rx) (hx : s.rxs[r]? = some x)
-    (hs : x.subs = []) : l.foldl (fun s t => unsubscribeCore s r t) s = s := by
-  induction l with
-  | nil => rfl
-  | cons t l ih =>
-    simp only [List.foldl_cons]
-    rw [unsubscribeCore_noop s r t x hx (by simp [hs])]
-    exact ih
-
-/-- closed form of the receiver's `close_internal`: the unsubscribe loop does nothing -/
+/-- the receiver's `close_internal`, unfolded for an existing receiver -/
 theorem rxCloseInternal_eq (s : St) (r : Nat) (x : Rx) (hx : s.rxs[r]? = some x) :
     rxCloseInternal s r =
       if upgradable s x then
-        { s with rxs := modAt s.rxs r (fun x => { x with subs := [] }), rcount := wrapDec s.rcount }
+        { (x.subs.foldl (fun s t => unsubscribeCore s r t) s) with
+          rcount := wrapDec (x.subs.foldl (fun s t => unsubscribeCore s r t) s).rcount }
       else s := by
   unfold rxCloseInternal
   simp only [hx]
-  split
-  · have h1 : ({ s with rxs := modAt s.rxs r (fun x => { x with subs := [] }) } : St).rxs[r]? =
-        some { x with subs := [] } := by simp [getElem?_modAt_self, hx]
-    rw [foldl_unsubscribeCore_noop _ _ r _ h1 rfl]
-  · rfl
 
 theorem rxCloseInternal_none (s : St) (r : Nat) (hx : s.rxs[r]? = none) : rxCloseInternal s r = s := by
   unfold rxCloseInternal; simp [hx]
@@ -145,5 +132,56 @@ theorem mem_unsubscribeCore_regs (s : St) (r : Nat) (t : Topic) (x0 : Rx) (hx0 :
   have : x0.subs.contains t = true := by simpa using hm
   simp only [this, isLive_modAt_subs]
   simp
+
+
+/-! ### the unsubscribe loop of `close_internal` -/
+
+theorem foldl_unsubscribeCore_txs (l : List Topic) (s : St) (r : Nat) :
+    (l.foldl (fun s t => unsubscribeCore s r t) s).txs = s.txs := by
+  induction l generalizing s with
+  | nil => rfl
+  | cons t l ih => simp only [List.foldl_cons]; rw [ih, unsubscribeCore_txs]
+
+theorem foldl_unsubscribeCore_length (l : List Topic) (s : St) (r : Nat) :
+    (l.foldl (fun s t => unsubscribeCore s r t) s).rxs.length = s.rxs.length := by
+  induction l generalizing s with
+  | nil => rfl
+  | cons t l ih =>
+    simp only [List.foldl_cons]; rw [ih]
+    rcases unsubscribeCore_rxs s r t with h | h <;> rw [h]; exact length_modAt _ _ _
+
+theorem foldl_unsubscribeCore_rxs_ne (l : List Topic) (s : St) (r q : Nat) (hq : r ≠ q) :
+    (l.foldl (fun s t => unsubscribeCore s r t) s).rxs[q]? = s.rxs[q]? := by
+  induction l generalizing s with
+  | nil => rfl
+  | cons t l ih =>
+    simp only [List.foldl_cons]; rw [ih]
+    rcases unsubscribeCore_rxs s r t with h | h <;> rw [h]; exact getElem?_modAt_ne _ _ _ _ hq
+
+/-- after the loop over `l` the receiver's own entry differs only in `subs`, which lost the
+topics of `l` -/
+theorem foldl_unsubscribeCore_self (l : List Topic) (s : St) (r : Nat) (x : Rx) (hx : s.rxs[r]? = some x) :
+    (l.foldl (fun s t => unsubscribeCore s r t) s).rxs[r]? =
+      some { x with subs := x.subs.filter (fun u => !l.contains u) } := by
+  induction l generalizing s x with
+  | nil =>
+    have : x.subs.filter (fun u => !([] : List Topic).contains u) = x.subs := List.filter_eq_self.2 (fun a _ => by simp)
+    simp only [List.foldl_nil, hx, this]
+  | cons t l ih =>
+    simp only [List.foldl_cons]
+    have h1 : (unsubscribeCore s r t).rxs[r]? = some { x with subs := x.subs.filter (fun u => u != t) } := by
+      rcases unsubscribeCore_rxs' s r t x hx with h | ⟨hn, he⟩
+      · rw [h, getElem?_modAt_self, hx]; rfl
+      · rw [he, hx]
+        have : x.subs.filter (fun u => u != t) = x.subs := by
+          apply List.filter_eq_self.2
+          intro a ha; simp only [bne_iff_ne, ne_eq]; intro hc; subst hc; exact hn ha
+        rw [this]
+    rw [ih _ _ h1]
+    simp only [List.filter_filter, Option.some.injEq]
+    congr 1
+    apply List.filter_congr
+    intro a _
+    simp only [List.contains_cons, Bool.not_or, bne, Bool.and_comm]
 
 end Fv.Chan.Topic
